@@ -92,6 +92,10 @@ def run(tier, replay=None):
     c.trusted = ["Go race detector", "harness/drive/c19 recorder (storage walk, dash-mpd parse of manifest.mpd)", "TLC", "verif gates in /repo (build tag verif)"]
     wk = 4
     nsim3, nsim22, nconf = (40, 30, 24) if quick else (1500, 1000, 400)
+    # ReceiverConcImpl_fixed_<tier>.cfg (Fixed = TRUE) is the model of the CURRENT code: all invariants must hold.
+    # ReceiverConcImpl_cex_*.cfg (Fixed = FALSE) document the design as written before commits 31ea68b / 50199e3 /
+    # f290dd1: each must still produce its counterexample.  The generator keeps Fixed = FALSE: those are the
+    # schedules that broke the old code, and the gates they drive are unchanged.
     jobs = [
         (IMPL, "ReceiverConcImpl_cex_onechannel.cfg", dict(workers=wk, expect="violation", expect_violated=("OneChannel",), coverage=False)),
         (IMPL, "ReceiverConcImpl_cex_registered.cfg", dict(workers=wk, expect="violation", expect_violated=("MediaOK", "Registered"), coverage=False)),
